@@ -32,6 +32,9 @@ type C07Case struct {
 	// innovation number on the other side does: genes are counted by innovation number, whatever they connect
 	AltA []int `json:"other_link_a,omitempty"`
 	AltB []int `json:"other_link_b,omitempty"`
+	// Arena: the two gene lists are carved from one backing array (1: a's genes first, 2: b's genes first), so the slice
+	// that comes first has spare capacity that reaches into the other list - the distance is a read-only query
+	Arena int `json:"shared_backing_array,omitempty"`
 }
 
 func genMutNum() *rapid.Generator[float64] {
@@ -163,6 +166,9 @@ func GenC07() *rapid.Generator[C07Case] {
 			}
 		}
 		c.Thr = rapid.OneOf(rapid.Just(0.0), rapid.Float64Range(0.01, 5), rapid.Float64Range(1, 100)).Draw(t, "threshold")
+		if rapid.IntRange(0, 5).Draw(t, "arena") == 0 {
+			c.Arena = rapid.IntRange(1, 2).Draw(t, "arena order")
+		}
 		return c
 	})
 }
@@ -233,6 +239,32 @@ func CheckC07(c C07Case, rec *Rec) error {
 	if c.IdA == c.IdB {
 		rec.Class("both genomes carry the same id")
 	}
+	if c.Arena > 0 {
+		first, second := a, b
+		if c.Arena == 2 {
+			first, second = b, a
+		}
+		arena := make([]*genetics.Gene, len(first.Genes)+len(second.Genes)+1)
+		copy(arena, first.Genes)
+		copy(arena[len(first.Genes):], second.Genes)
+		n1, n2 := len(first.Genes), len(second.Genes)
+		first.Genes, second.Genes = arena[:n1], arena[n1:n1+n2]
+		rec.Class("gene lists carved from one backing array")
+	}
+	genesBefore := [2][]*genetics.Gene{append([]*genetics.Gene{}, a.Genes...), append([]*genetics.Gene{}, b.Genes...)}
+	untouched := func(when string) error {
+		for k, g := range []*genetics.Genome{a, b} {
+			if len(g.Genes) != len(genesBefore[k]) {
+				return fmt.Errorf("%s: the gene list of an argument changed length from %d to %d", when, len(genesBefore[k]), len(g.Genes))
+			}
+			for i := range g.Genes {
+				if g.Genes[i] != genesBefore[k][i] {
+					return fmt.Errorf("%s: gene %d of an argument genome was replaced by the distance computation", when, i)
+				}
+			}
+		}
+		return nil
+	}
 	opts := &neat.Options{ExcessCoeff: c.Excess, DisjointCoeff: c.Disjoint, MutdiffCoeff: c.Mutdiff, CompatThreshold: c.Thr, PopSize: 10, DropOffAge: 15}
 	if c.Thr > 0 {
 		rec.Class("options carry a positive compatibility threshold")
@@ -261,6 +293,9 @@ func CheckC07(c C07Case, rec *Rec) error {
 		opts.GenCompatMethod = method
 		ab := a.VerifCompatibility(b, opts)
 		ba := b.VerifCompatibility(a, opts)
+		if err := untouched(string(method)); err != nil {
+			return err
+		}
 		if err := checkDistance(fmt.Sprintf("%s d(a,b) [E=%d D=%d M=%d W=%v]", method, e, d, m, w), ab, ref); err != nil {
 			return err
 		}
